@@ -19,7 +19,7 @@ RULE = ("fault enumeration on real runs of csvdump/unspentcsvdump/balances. Inpu
         "(exit 0 and outputs byte-identical to the undisturbed run and no *.tmp) or (exit!=0 and no final-named file); (2) trace spec "
         "over the strace log of every traced run: a final name only ever appears through rename(tmp->final) and no write reaches a file "
         "after it carries its final name; (3) after SIGKILL no final-named file differs from the undisturbed output. "
-        "Mid-run faults: EMFILE/ENOENT/EACCES/EIO injected (strace) at every open and every read of a blk file; a blk file unlinked / shrunk while the run is suspended (SIGSTOP) after its first blocks; a blk file holding 255..1024 blocks of the range removed / emptied / cut: exit!=0, failing height = the block being fetched (hook log), no final-named file. distinct = (callback, fault kind, position class, output size class, outcome) signatures")
+        "Mid-run faults: EMFILE/ENOENT/EACCES/EIO injected (strace) at every open and every read of a blk file; a blk file unlinked / shrunk while the run is suspended (SIGSTOP) after its first blocks; a blk file holding 255..1024 blocks of the range removed / emptied / cut: exit!=0, failing height = the block being fetched (hook log), no final-named file. Readers of stdout / stderr gone (closed pipe, reader that leaves after one line, /dev/full) with and without -vv: judged by oracle (1). distinct = (callback, fault kind, position class, output size class, outcome) signatures")
 
 CALLBACKS = ["csvdump", "unspentcsvdump", "balances"]
 ERR_RE = re.compile(r"Error at height (\d+):")
@@ -585,8 +585,66 @@ def _not_yet_opened(events, victim):
     return True
 
 
+# ------------------------------------------------------------------ the readers of stdout / stderr go away
+def stdio_case(spec):
+    """stdout / stderr are a pipe whose reader has left (`csvdump ... | head -n 1`, a dead log collector), /dev/full, or closed. Whatever
+    the process then does - carry on, or stop - the exit status must tell the truth: 0 only with complete final-named output and no *.tmp."""
+    import subprocess
+    coin, cbname = spec["coin"], spec["callback"]
+    work = harness.fresh(os.path.join(spec["work"], "c%d" % spec["n"]))
+    chain, d, kw, pl_index = prepare(spec, work)
+    binary = core.build("release")
+    ref = reference_run(binary, d, coin, cbname, work, None, None)
+    v, counters, shapes = [], {"runs": 1}, set()
+    dump = os.path.abspath(os.path.join(work, "o"))
+    for mode in spec["modes"]:
+        for verbosity in (0, 2):
+            harness.fresh(dump)
+            argv = harness.cli(binary, d, coin, cbname, dump, verbosity=verbosity)
+            opened = []
+            kwargs = {}
+            for stream in (("stdout", "stderr") if mode.endswith("+stderr") else ("stdout",)):
+                m = mode.split("+")[0]
+                if m == "closed-pipe":
+                    r, w = os.pipe()
+                    os.close(r)
+                    kwargs[stream] = w
+                    opened.append(w)
+                elif m == "dev-full":
+                    fd = os.open("/dev/full", os.O_WRONLY)
+                    kwargs[stream] = fd
+                    opened.append(fd)
+                elif m == "reader-leaves":
+                    kwargs[stream] = subprocess.PIPE
+            kwargs.setdefault("stderr", subprocess.DEVNULL)
+            env = dict(os.environ, RUST_BACKTRACE="0")
+            env.pop("RUST_LOG", None)
+            pr = subprocess.Popen(argv, env=env, **kwargs)
+            for fd in opened:
+                os.close(fd)
+            if mode.split("+")[0] == "reader-leaves":
+                for stream in ("stdout", "stderr"):
+                    f = getattr(pr, stream)
+                    if f is not None:
+                        f.readline()
+                        f.close()
+            try:
+                rc = pr.wait(timeout=300)
+            except subprocess.TimeoutExpired:
+                pr.kill()
+                raise Inconclusive("watchdog fired (%s)" % mode)
+            counters["runs"] += 1
+            counters["stdio_faults"] = counters.get("stdio_faults", 0) + 1
+            what = "%s%s with %s as %s" % (cbname, " -vv" if verbosity else "", mode.split("+")[0], "stdout and stderr" if mode.endswith("+stderr") else "stdout")
+            v.extend(outcome(core.Proc(rc, "", "", False, 0), dump, ref, what))
+            shapes.add("%s|stdio-%s|%s" % (cbname, mode, "exit0" if rc == 0 else "fail"))
+    shutil.rmtree(work, ignore_errors=True)
+    return {"evaluations": counters["runs"], "violations": v[:4], "counters": counters, "shapes": sorted(shapes),
+            "sample": {"kind": "stdio", "callback": cbname, "coin": coin, "modes": spec["modes"]}}
+
+
 def dispatch(spec):
-    return {"input": input_case, "output": output_case, "clean": clean_case, "midrun": midrun_case}[spec["case"]](spec)
+    return {"input": input_case, "output": output_case, "clean": clean_case, "midrun": midrun_case, "stdio": stdio_case}[spec["case"]](spec)
 
 
 def plan(chk):
@@ -617,6 +675,9 @@ def plan(chk):
         n += 1
         specs.append(dict(case="midrun", kind="vanish", callback=cbname, coin=coins[n % 8], seed=chk.seed, n=n, blocks=1500,
                           actions=["unlink-later", "shrink-later", "shrink-open"] * (3 if chk.thorough else 1)))
+        n += 1
+        specs.append(dict(case="stdio", callback=cbname, coin=coins[n % 8], seed=chk.seed, chain="stdio-%d" % n, n=n, nfiles=2, blocks=40 if chk.thorough else 12, xor=False,
+                          modes=["closed-pipe", "dev-full", "reader-leaves", "closed-pipe+stderr", "reader-leaves+stderr", "dev-full+stderr"]))
         # output faults: small (<4 MB buffer) and large outputs
         for mb, faults in ((None, ["fsize", "inject", "kill"]), (110000, ["fsize", "inject", "kill"])):
             n += 1
@@ -646,7 +707,7 @@ def main():
     chk.finish(RULE, floor={"input_faults": 300, "input_faults:truncated": 200, "input_faults:offset-past-eof": 9, "input_faults:emptied": 6,
                             "input_faults:removed": 6, "fsize_faults": 40, "fsize_faults_hit_output": 10, "write_faults_hit": 12, "kill_points_hit": 30,
                             "trace_events": 30, "max_output_writes_in_one_run": 3, "bulk_faults": 9, "input_syscall_faults_hit": 20,
-                            "midrun_faults_hit_live_run": 3},
+                            "midrun_faults_hit_live_run": 3, "stdio_faults": 30},
                assumptions=["SIGKILL 'at arbitrary times' is enumerated as SIGKILL at every syscall boundary that touches an output path",
                             "torn writes inside the kernel, power loss and fsync semantics are out of scope (not claimed by the property)",
                             "RLIMIT_FSIZE also limits LevelDB's own files: very small limits fail at index open (exit!=0, no output) — counted separately from faults that hit the output"],
@@ -654,4 +715,4 @@ def main():
 
 
 def replay(spec):
-    core.replay_case("C10", {"input": input_case, "output": output_case, "clean": clean_case, "midrun": midrun_case}, spec)
+    core.replay_case("C10", {"input": input_case, "output": output_case, "clean": clean_case, "midrun": midrun_case, "stdio": stdio_case}, spec)
